@@ -1,9 +1,191 @@
-(* C11 -- property theorems only (temporary skeleton) *)
-From Coq Require Import QArith List Bool Arith.
+(* C11 -- combine1fiber resamples spectra: finite flux, conservative inverse variance.
+   Property theorems only; each is closed by `exact` and followed by Print Assumptions.
+   Model: C11/Model.v (combine1fiber_model c fits: c = inputs, fits = one B-spline fit result per group -- the recorded
+   iterfit result in the correspondence run, `model_fit` = the C10 iterfit model in the fit-level theorems).
+   "Same grid is the identity to interpolation accuracy" is an approximation statement: measured by the
+   correspondence run (2e-3 on smooth inputs), deliberately NOT a theorem. *)
+From Coq Require Import QArith Qminmax List Bool Arith.
 Import ListNotations.
-From PV Require Import Lib.WLS BSpline.Eval C11.Model C11.Proofs.
+From PV Require Import Lib.WLS BSpline.Eval BSpline.Fit BSpline.Iter BSpline.KnotsProofs
+  C11.Model C11.Proofs C11.ProofsIvar C11.ProofsFlux C11.ProofsScale C11.ProofsFit.
 Open Scope Q_scope.
 
-Theorem C11_grow_length : forall v, length (grow v) = length v.
-Proof. exact grow_length. Qed.
-Print Assumptions C11_grow_length.
+(* ---- lengths: |newflux| = |newivar| = |newloglam|, for every input and every fit result *)
+Theorem C11_lengths : forall c fits,
+  length (fst (combine1fiber_model c fits)) = length (c_newloglam c) /\
+  length (snd (combine1fiber_model c fits)) = length (c_newloglam c).
+Proof. exact lengths. Qed.
+Print Assumptions C11_lengths.
+
+(* ---- inverse variance >= 0 (single spectrum with non-negative input ivar; any number of exposures with
+   non-negative weights) *)
+Theorem C11_ivar_nonneg : forall c fits, single_spectrum c -> ivar_input_nonneg c ->
+  Forall (fun v => 0 <= v) (snd (combine1fiber_model c fits)).
+Proof. exact ivar_nonneg. Qed.
+Print Assumptions C11_ivar_nonneg.
+
+Theorem C11_ivar_nonneg_weights : forall c fits, (forall i, 0 <= nthQ (weights c) i) ->
+  Forall (fun v => 0 <= v) (snd (combine1fiber_model c fits)).
+Proof. exact ivar_nonneg_weights. Qed.
+Print Assumptions C11_ivar_nonneg_weights.
+
+(* ---- no good input pixel at all: everything is zero *)
+Theorem C11_no_good_pixel_all_zero : forall c fits, good_index c = [] ->
+  combine1fiber_model c fits = (map (fun _ => 0) (c_newloglam c), map (fun _ => 0) (c_newloglam c)).
+Proof. exact no_good_pixel_all_zero. Qed.
+Print Assumptions C11_no_good_pixel_all_zero.
+
+(* ---- newivar = 0 unless the output pixel lies between two adjacent input pixels that both passed the fit
+   (fullcombmask), up to the code's own window of EPS = 2^-23 of a pixel beside a passing pixel
+   (exists_bracket / allowed_between spell this out).  So: outside the input range, next to or inside runs of
+   zero-weight / rejected pixels, in groups too small to be fitted -> newivar = 0. *)
+Theorem C11_ivar_zero_outside : forall c fits q, single_spectrum c -> incrl (c_inloglam c) ->
+  (2 <= length (c_inloglam c))%nat ->
+  ~ nthQ (snd (combine1fiber_model c fits)) q == 0 ->
+  exists_bracket (map (fun i => (nthQ (c_inloglam c) i, nthB (s_comb (fst (stages c fits))) i))
+                      (seq 0 (length (c_inloglam c)))) (nthQ (c_newloglam c) q) = true.
+Proof. exact ivar_zero_outside. Qed.
+Print Assumptions C11_ivar_zero_outside.
+
+Theorem C11_ivar_zero_outside_multi : forall c fits q,
+  (forall j, (j < c_nspec c)%nat -> incrl (map (nthQ (c_inloglam c)) (these_of c j)) /\ (2 <= length (these_of c j))%nat) ->
+  ~ nthQ (snd (combine1fiber_model c fits)) q == 0 ->
+  exists j, (j < c_nspec c)%nat /\
+    exists_bracket (map (fun i => (nthQ (c_inloglam c) i, nthB (s_comb (fst (stages c fits))) i)) (these_of c j))
+                   (nthQ (c_newloglam c) q) = true.
+Proof. exact ivar_zero_outside_multi. Qed.
+Print Assumptions C11_ivar_zero_outside_multi.
+
+(* a non-zero output inverse variance also needs a valid spline value there *)
+Theorem C11_newivar_nonzero_needs_mask : forall c fits q,
+  ~ nthQ (snd (stages c fits)) q == 0 -> nth q (s_mask (fst (stages c fits))) false = true.
+Proof. exact newivar_nonzero_needs_mask. Qed.
+Print Assumptions C11_newivar_nonzero_needs_mask.
+
+(* ---- single spectrum: every non-zero output ivar is the linear interpolation of the (masked) input ivar and
+   never above the larger of its two neighbours *)
+Theorem C11_ivar_is_interp_le_localmax : forall c fits iv q, single_spectrum c -> incrl (c_inloglam c) ->
+  (2 <= length (c_inloglam c))%nat -> c_ivar c = Some iv -> Forall (fun w => 0 <= w) iv ->
+  length iv = length (c_inloglam c) ->
+  let p := nthQ (c_newloglam c) q in
+  let comb := s_comb (fst (stages c fits)) in
+  let v := nthQ (snd (combine1fiber_model c fits)) q in
+  ~ v == 0 ->
+  exists i, (S i < length iv)%nat /\ nthQ (c_inloglam c) i <= p <= nthQ (c_inloglam c) (S i) /\
+    allowed_between (nthQ (c_inloglam c) i) (nthQ (c_inloglam c) (S i)) (nthB comb i) (nthB comb (S i)) p = true /\
+    v == interp (map (fun i => (nthQ (c_inloglam c) i, nthQ iv i * b2q (nthB comb i))) (seq 0 (length iv))) p /\
+    v <= Qmax (nthQ iv i) (nthQ iv (S i)).
+Proof. exact ivar_is_interp_le_localmax. Qed.
+Print Assumptions C11_ivar_is_interp_le_localmax.
+
+(* np.interp: bracketing and convexity *)
+Theorem C11_interp_bracket_bounds : forall pts p, ssorted pts -> (2 <= length pts)%nat ->
+  fst (hd (0, 0) pts) <= p -> p <= fst (last pts (0, 0)) ->
+  exists a b, adjacent pts a b /\ fst a < fst b /\ fst a <= p <= fst b /\
+    interp pts p == snd a + (snd b - snd a) * ((p - fst a) / (fst b - fst a)) /\
+    Qmin (snd a) (snd b) <= interp pts p <= Qmax (snd a) (snd b).
+Proof. exact interp_bracket_bounds. Qed.
+Print Assumptions C11_interp_bracket_bounds.
+
+(* ---- a constant spectrum stays constant *)
+Theorem C11_constant_spectrum_stays_constant : forall c c0 fits,
+  fits_constant c c0 fits -> (1 <= c_k c)%nat -> good_index c <> [] ->
+  forall q, 0 < nthQ (snd (combine1fiber_model c fits)) q -> nthQ (fst (combine1fiber_model c fits)) q == c0.
+Proof. exact constant_spectrum_stays_constant_pos. Qed.
+Print Assumptions C11_constant_spectrum_stays_constant.
+
+Theorem C11_aesthetics_constant : forall m flux iv c, length iv = length flux -> m <> Nothing ->
+  (forall q, (q < length flux)%nat -> ~ nthQ iv q == 0 -> nthQ flux q == c) ->
+  (exists q, 0 < nthQ iv q) ->
+  Forall (fun a => a == c) (aesthetics_model m flux iv).
+Proof. exact aesthetics_constant. Qed.
+Print Assumptions C11_aesthetics_constant.
+
+(* aesthetics only touches pixels without variance *)
+Theorem C11_aesthetics_support : forall m flux iv, length iv = length flux ->
+  forall q, 0 < nthQ iv q -> nthQ (aesthetics_model m flux iv) q = nthQ flux q.
+Proof. exact aesthetics_support_pos. Qed.
+Print Assumptions C11_aesthetics_support.
+
+(* the fit model (C10 loop with the certified solver) returns constant coefficients on constant data *)
+Theorem C11_iter_loop_constant : forall gb k lower upper ds c0,
+  incr gb -> (1 <= k)%nat -> (2 * k <= length gb)%nat ->
+  Forall (fun d => dy d == c0) ds ->
+  forall fuel mask coef m,
+  iter_loop fit_dense fuel gb k lower upper ds mask = Some (coef, m) -> Forall (fun a => a == c0) coef.
+Proof. exact iter_loop_constant. Qed.
+Print Assumptions C11_iter_loop_constant.
+
+Theorem C11_model_fit_constant : forall maxiter lower upper bkspace k c ss c0 g,
+  let gb := knots_of_option (OBkspace bkspace) (map (nthQ (c_inloglam c)) ss) k 1 in
+  incr gb -> (1 <= k)%nat -> (2 * k <= length gb)%nat ->
+  Forall (fun i => nthQ (c_flux c) i == c0) ss ->
+  model_fit fit_dense maxiter lower upper bkspace k c ss = Some g ->
+  Forall (fun a => a == c0) (g_coeff g).
+Proof. exact model_fit_constant. Qed.
+Print Assumptions C11_model_fit_constant.
+
+(* ---- scaling law: flux * s, ivar / s^2 (and the per-group fits scaled by s) scale the outputs likewise.
+   The growth test |smooth3| < EPS is absolute; the hypothesis says the rescaling moves no 3-pixel mean across EPS. *)
+Theorem C11_scaling_law : forall s c iv fits,
+  0 < s -> c_nspec c = 1%nat -> c_ivar c = Some iv ->
+  growth_decisions_agree s c fits ->
+  let (nf, ni) := combine1fiber_model c fits in
+  let (nf', ni') := combine1fiber_model (scale_cin s c) (map (scale_fit s) fits) in
+  Forall2 Qeq nf' (map (fun a => a * s) nf) /\ Forall2 Qeq ni' (map (fun a => a / (s * s)) ni).
+Proof. exact scaling_law. Qed.
+Print Assumptions C11_scaling_law.
+
+(* ... and the fit model itself scales: same rejection masks, coefficients times s *)
+Theorem C11_iter_loop_scale : forall gb k lower upper s ds,
+  (1 <= k)%nat -> (2 * k <= length gb)%nat -> 0 < s ->
+  forall fuel mask x m x' m',
+  iter_loop fit_dense fuel gb k lower upper ds mask = Some (x, m) ->
+  iter_loop fit_dense fuel gb k lower upper (map (scale_datum s) ds) mask = Some (x', m') ->
+  m' = m /\ Forall2 Qeq x' (map (fun a => a * s) x).
+Proof. exact iter_loop_scale. Qed.
+Print Assumptions C11_iter_loop_scale.
+
+Theorem C11_model_fit_scale : forall s maxiter lower upper bkspace k c ss iv g g',
+  let gb := knots_of_option (OBkspace bkspace) (map (nthQ (c_inloglam c)) ss) k 1 in
+  (1 <= k)%nat -> (2 * k <= length gb)%nat -> 0 < s ->
+  c_ivar c = Some iv -> (c_nspec c < 2)%nat ->
+  model_fit fit_dense maxiter lower upper bkspace k c ss = Some g ->
+  model_fit fit_dense maxiter lower upper bkspace k (scale_cin s c) ss = Some g' ->
+  fit_equiv (Some g') (scale_fit s (Some g)).
+Proof. exact model_fit_scale_single. Qed.
+Print Assumptions C11_model_fit_scale.
+
+(* ---- preprocess_spectra: a pixel at log-wavelength L is resampled at L - logshift (logshift = log10(1+z), a
+   parameter); grouping and interpolation do not see the shift *)
+Theorem C11_shift_grid_nth : forall s l i, (i < length l)%nat -> nthQ (shift_grid s l) i = nthQ l i - s.
+Proof. exact shift_grid_nth. Qed.
+Print Assumptions C11_shift_grid_nth.
+
+Theorem C11_preprocess_is_shifted_call : forall shift c fits,
+  preprocess_model shift c fits =
+  combine1fiber_model (mkCin (shift_grid shift (c_inloglam c)) (c_flux c) (c_ivar c) (c_specnum c) (c_nspec c)
+                             (c_newloglam c) (c_maxsep c) (c_k c) (c_method c) (c_isort c)) fits.
+Proof. exact preprocess_is_shifted_call. Qed.
+Print Assumptions C11_preprocess_is_shifted_call.
+
+Theorem C11_groups_shift_invariant : forall maxsep s l isort,
+  Forall (fun i => (i < length l)%nat) isort ->
+  groups maxsep (shift_grid s l) isort = groups maxsep l isort.
+Proof. exact groups_shift_invariant. Qed.
+Print Assumptions C11_groups_shift_invariant.
+
+Theorem C11_interp_shift : forall s pts p,
+  interp (map (fun q => (fst q - s, snd q)) pts) (p - s) == interp pts p.
+Proof. exact interp_shift. Qed.
+Print Assumptions C11_interp_shift.
+
+(* non-vacuity: five pixels, the middle one without weight, resampled half a pixel off: the two output pixels next
+   to the bad pixel get no variance, the outer ones the interpolated one *)
+Example C11_example :
+  let c := mkCin [0; 1; 2; 3; 4] [1; 1; 1; 1; 1] (Some [4; 4; 0; 2; 2]) [0; 0; 0; 0; 0]%nat 1 [1 # 2; 3 # 2; 5 # 2; 7 # 2]
+                 2 3 Nothing [0; 1; 3; 4]%nat in
+  snd (stages c [None; None]) = [0; 0; 0; 0] /\
+  all2 Qeq_bool (ivar_of_exposure (c_inloglam c) [4; 4; 0; 2; 2] [true; true; false; true; true] [0; 1; 2; 3; 4]%nat
+                                  (c_newloglam c) [true; true; true; true]) [4; 0; 0; 2] = true.
+Proof. vm_compute. split; reflexivity. Qed.
